@@ -1,7 +1,7 @@
 """Whittaker filter with differences of 2nd order for a 1d array."""
 
 from numba import njit
-from numpy import zeros
+from numpy import where, zeros
 
 
 @njit
@@ -16,6 +16,8 @@ def ws2d(y, lmda, w):
     Returns:
         z (numpy.array): smoothed data array (1d)
     """
+    # a cell without weight must not contribute, whatever it holds (0 * nan is nan)
+    y = where(w == 0, 0.0, y)
     n = y.shape[0]
     m = n - 1
     z = zeros(n)
